@@ -162,10 +162,24 @@ fn run_ops(
                     res.push("nop".into());
                 } else {
                     res.push("ok".into());
-                    let mut g = a.borrow_with(());
-                    run_ops(env, ops, i, &mut g, b, res, true)?;
-                    // guard dropped here: explicit `dr`, or end of scope
+                    // the guard lives inside the closure: `px` panics out of it, so that the
+                    // guard is dropped while the stack unwinds and the panic is caught here
+                    let r = catch_unwind(AssertUnwindSafe(|| {
+                        let mut g = a.borrow_with(());
+                        run_ops(env, ops, i, &mut g, b, res, true)
+                        // guard dropped here: explicit `dr`, end of scope, or unwinding
+                    }));
+                    if let Ok(x) = r {
+                        x?;
+                    }
                 }
+            }
+            ["px"] => {
+                if in_guard {
+                    res.push("ok".into());
+                    std::panic::panic_any("px");
+                }
+                res.push("nop".into());
             }
             ["dr"] => {
                 if in_guard {
@@ -339,6 +353,7 @@ fn core_alphabet() -> Vec<String> {
         "sf/c/s/1/aY[y64]",
         "bw",
         "dr",
+        "px",
         "ex/o/x",
     ]
     .iter()
@@ -380,6 +395,7 @@ fn wide_alphabet() -> Vec<String> {
     v.push("cn".into());
     v.push("bw".into());
     v.push("dr".into());
+    v.push("px".into());
     v
 }
 
@@ -534,14 +550,88 @@ fn random_op(fields: &[FieldDecl], rng: &mut Rng) -> String {
         13 => format!("cl/{t}"),
         14 => "cn".into(),
         15..=16 => "bw".into(),
-        17 => "dr".into(),
+        17 => if rng.chance(1, 2) { "dr".into() } else { "px".into() },
         18 => format!("tk/{t}"),
         _ => format!("ex/{t}/{}", if rng.chance(1, 2) { "x" } else { "s" }),
     }
 }
 
+fn deep_typed(v: &LhsValue<'_>, ty: Type) -> bool {
+    use wirefilter::GetType;
+    if v.get_type() != ty {
+        return false;
+    }
+    match v {
+        LhsValue::Array(a) => {
+            let t = a.value_type();
+            Type::Array(t.into()) == ty && a.iter().all(|e| deep_typed(e, t))
+        }
+        LhsValue::Map(m) => {
+            let t = m.value_type();
+            Type::Map(t.into()) == ty && m.iter().all(|(_, e)| deep_typed(e, t))
+        }
+        _ => true,
+    }
+}
+
+/// The typed wrappers (`TypedArray<V>`, `TypedMap<V>`, nested in every combination) are a
+/// third way of constructing container values: what they produce must be the value the
+/// checked constructors produce — homogeneous at every level, of exactly the nested type.
+fn typed_wrappers(out: &mut Out) {
+    use wirefilter::{Array, Map, TypedArray, TypedMap};
+    fn k(s: &str) -> Box<[u8]> {
+        s.as_bytes().to_vec().into_boxed_slice()
+    }
+    let ta = |xs: &[i64]| TypedArray::from_iter(xs.iter().copied());
+    let tm = |xs: &[(&str, i64)]| TypedMap::from_iter(xs.iter().map(|(a, b)| (k(a), *b)));
+    let cases: Vec<(&str, LhsValue<'static>, &str)> = vec![
+        ("AI", LhsValue::Array(Array::from(ta(&[1, 2]))), "aI[i1;i2]"),
+        ("MI", LhsValue::Map(Map::from(tm(&[("a", 1), ("b", 2)]))), "mI{61=i1;62=i2}"),
+        ("AAI", LhsValue::Array(Array::from(TypedArray::from_iter([ta(&[1, 2]), ta(&[])]))), "aAI[aI[i1;i2];aI[]]"),
+        ("AMI", LhsValue::Array(Array::from(TypedArray::from_iter([tm(&[("a", 1), ("b", 2)]), tm(&[("c", 3)])]))), "aMI[mI{61=i1;62=i2};mI{63=i3}]"),
+        ("MAI", LhsValue::Map(Map::from(TypedMap::from_iter([(k("x"), ta(&[1])), (k("y"), ta(&[]))]))), "mAI{78=aI[i1];79=aI[]}"),
+        ("MMI", LhsValue::Map(Map::from(TypedMap::from_iter([(k("x"), tm(&[("a", 1)])), (k("y"), tm(&[]))]))), "mMI{78=mI{61=i1};79=mI{}}"),
+        (
+            "AAMI",
+            LhsValue::Array(Array::from(TypedArray::from_iter([TypedArray::from_iter([tm(&[("a", 1)])]), TypedArray::from_iter([])]))),
+            "aAMI[aMI[mI{61=i1}];aMI[]]",
+        ),
+        ("AMI", LhsValue::Array(Array::from(TypedArray::<TypedMap<i64>>::from_iter([]))), "aMI[]"),
+    ];
+    for (ty, v, same_as) in cases {
+        let op = format!("oracle typed-wrapper {ty} {same_as}");
+        let t = parse_ty(ty).expect("type");
+        let expected = parse_val(same_as).expect("value");
+        let mut why = None;
+        if !deep_typed(&v, t) {
+            why = Some(format!("value built through the typed wrappers is not a homogeneous {ty}: {}", val_str(&v)));
+        } else if v != expected {
+            why = Some(format!("typed wrappers gave {}, the checked constructors {}", val_str(&v), val_str(&expected)));
+        } else {
+            // and a context field of exactly that type takes it, a field of a sibling type does not
+            let mut b = SchemeBuilder::new();
+            b.add_field("f", t).unwrap();
+            b.add_field("g", if ty == "AI" { Type::Array(Type::Bytes.into()) } else { Type::Array(Type::Int.into()) }).unwrap();
+            let s = b.build();
+            let mut c: Ctx = ExecutionContext::new(&s);
+            if c.set_field_value_from_name("f", v.clone()).is_err() {
+                why = Some(format!("a field of type {ty} refuses the value built through the typed wrappers"));
+            } else if ty != "AI" && c.set_field_value_from_name("g", v.clone()).is_ok() {
+                why = Some(format!("a field of another type accepts the {ty} value built through the typed wrappers"));
+            }
+        }
+        if let Some(w) = &why {
+            out.impl_failure(&op, w);
+        }
+        out.case(&op, if why.is_none() { "ok" } else { "mismatch" }, Some(&op), &["typed-wrapper"]);
+    }
+}
+
 pub fn run(cfg: Cfg, out: &mut Out) {
     std::panic::set_hook(Box::new(|_| {}));
+    if cfg.shard == 0 {
+        typed_wrappers(out);
+    }
     let small = small_fields();
     let env = Env::new(&small);
     let mut counter = 0u64;
